@@ -40,6 +40,7 @@ MALFORMED = [
     ("unit without a value but a symbol", "novalue2 = = nv2"),
     ("prefix without a value", "nopfx- ="),
     ("modifier given twice", "degQ2 = kelvin; offset: 1; offset: 2"),
+    ("prefix symbol that is not a symbol", "badsym- = 1000 = k k-"),
     ("modifier without a colon", "degQ = kelvin; offset 273.15"),
     ("stray text after the modifiers", "degQ = 2 * kelvin; offset: 10; bogus"),
     ("number in place of a modifier", "degQ = kelvin; 273.15"),
